@@ -255,4 +255,3 @@ func (l *wsLog) snapshot() ([]protocol.Envelope, bool) {
 }
 
 func initWorldOnce() { termio.Init() }
-
